@@ -1279,6 +1279,24 @@ def bound_native(I, fr, bn, args, kwargs, n):
         if name == 'extend':
             b.items.extend(args[0].items)
             return None
+        if name == 'insert':
+            b.items.insert(_as_int(args[0], n), args[1])
+            return None
+        if name == 'pop':
+            if not b.items:
+                raise _RaisedExc(Raised('IndexError', n))
+            i = _as_int(args[0], n) if args else -1
+            if not -len(b.items) <= i < len(b.items):
+                raise _RaisedExc(Raised('IndexError', n))
+            return b.items.pop(i)
+        if name == 'clear':
+            del b.items[:]
+            return None
+        if name == 'index':
+            for i, x in enumerate(b.items):
+                if x is args[0] or (isinstance(x, str) and x == args[0]):
+                    return C(i)
+            raise _RaisedExc(Raised('ValueError', n))
     if isinstance(b, (Rat, SumV)) and name == 'item':
         return b
     if isinstance(b, DictV):
@@ -1460,6 +1478,17 @@ def _np_linspace(I, fr, args, kwargs, n):
 
 def _isclass(I, fr, args, kwargs, n):
     return isinstance(args[0], ClassInfo)
+
+
+def _np_anyall(which):
+    def h(I, fr, args, kwargs, n):
+        v = _arg(args, kwargs, 0, 'a')
+        if isinstance(v, ListV) and all(isinstance(x, bool) for x in v.items):
+            return any(v.items) if which == 'any' else all(v.items)
+        if isinstance(v, bool):
+            return v
+        raise Unsupported('np.%s operand' % which, n)
+    return h
 
 
 def _np_mean(I, fr, args, kwargs, n):
@@ -1783,6 +1812,8 @@ NATIVE = {
     'numpy.argmax': _np_argmax,
     'numpy.roots': _np_roots,
     'numpy.mean': _np_mean,
+    'numpy.any': _np_anyall('any'),
+    'numpy.all': _np_anyall('all'),
     'numpy.linspace': _np_linspace,
     'inspect.isclass': _isclass,
     'numpy.isreal': _np_isreal,
